@@ -319,7 +319,9 @@ func (s Server) Serve(c context.Context, conn network.Conn) (err error) {
 			}
 		}
 
-		connectionClose = s.DisableKeepalive || ctx.Request.Header.ConnectionClose()
+		// A declined 'Expect: 100-continue' request leaves its body (if the client sends it anyway) unread:
+		// nothing that follows on this connection can be told apart from that body.
+		connectionClose = s.DisableKeepalive || ctx.Request.Header.ConnectionClose() || !continueReadingRequest
 		isHTTP11 = ctx.Request.Header.IsHTTP11()
 
 		if serverName != nil {
